@@ -208,7 +208,9 @@ static inline ChildEnd run_isolated(Harness &h, const Json &plan, int timeout_s)
     e.hash = strtoull(r.gets("hash").c_str(), nullptr, 16);
     return e;
   }
-  return classify_death(st, (const char *) slot->note, hang);
+  ChildEnd ce = classify_death(st, (const char *) slot->note, hang);
+  if (ce.cls.compare(0, 5, "side_") == 0) ce.status = "ok";
+  return ce;
 }
 
 // ---- worker / supervisor ---------------------------------------------------------------------------------------
@@ -260,6 +262,7 @@ static inline int mode_run(Harness &h, uint64_t seed, int64_t count, int jobs, c
   int hang_s = h.hang_seconds();
   FILE *sf = fopen((outdir + "/fail.sup").c_str(), "w");
   int64_t crashes = 0;
+  std::map<std::string, int64_t> side;
   auto spawn = [&](int w) {
     fflush(stdout); fflush(stderr); fflush(sf);
     pid_t p = fork();
@@ -287,6 +290,11 @@ static inline int mode_run(Harness &h, uint64_t seed, int64_t count, int jobs, c
       // died during a run (or between runs: attribute to infra)
       crashes++;
       ChildEnd e = classify_death(st, (const char *) sh->w[w].note, hang);
+      if (e.cls.compare(0, 5, "side_") == 0) {  // outside the property under test: counted, never a verdict
+        side[e.cls + "/" + e.sig]++; sh->w[w].inflight = -1; sh->w[w].done++;
+        if (sh->next_index < count && !sh->stop) spawn(w); else alive--;
+        continue;
+      }
       Json rj = Json::object();
       rj.set("index", (long long) inf); rj.set("status", e.status); rj.set("cls", e.cls); rj.set("sig", e.sig); rj.set("detail", e.detail);
       fprintf(sf, "%s\n", rj.str().c_str()); fflush(sf);
@@ -311,6 +319,8 @@ static inline int mode_run(Harness &h, uint64_t seed, int64_t count, int jobs, c
   for (int w = 0; w < jobs; w++) for (int i = 0; i < MAX_COUNTERS && sh->w[w].counters[i].name[0]; i++) cs[sh->w[w].counters[i].name] += sh->w[w].counters[i].val;
   Json cj = Json::object(); for (auto &p : cs) cj.set(p.first, (unsigned long long) p.second);
   sum.set("counters", cj);
+  Json sdj = Json::object(); for (auto &p : side) sdj.set(p.first, (long long) p.second);
+  sum.set("side_findings", sdj);
   // distinct plan hashes among nontrivial runs
   std::vector<uint64_t> hs;
   for (int w = 0; w < jobs; w++) { std::string d = read_file(outdir + fmt("/hash.%d", w)); size_t n = d.size() / 8; size_t o = hs.size(); hs.resize(o + n); memcpy(hs.data() + o, d.data(), n * 8); }
